@@ -41,6 +41,7 @@ def short_inputs(ctx, prog):
 
 def run(ctx):
     cfgs = ["dbg", "rel"] if ctx.tier == "quick" else ["dbg", "rel", "unsafe_dbg", "unsafe", "unchecked", "nodef"]
+    ctx.progs(cfgs)  # build all configurations in parallel
     for c in cfgs:
         prog = ctx.prog(c)
         if c.endswith("dbg"):
